@@ -2203,6 +2203,43 @@ impl<K: Hash + Eq, V, E: OnEvictCallback, S: BuildHasher> RawLRU<K, V, E, S> {
         self.map.reserve(extra);
         self.map.shrink_to_fit();
     }
+
+    /// Index consistency probe that never iterates the table: walks the list
+    /// forward (at most `max_steps` nodes, `is_live` asked before each
+    /// dereference) and looks every node's key up. Returns (entries the index
+    /// claims to hold, linked nodes found through it). Calls `Hash`/`Eq`.
+    #[doc(hidden)]
+    pub fn verif_index_probe(
+        &self,
+        max_steps: usize,
+        is_live: &mut dyn FnMut(usize, usize) -> bool,
+    ) -> (usize, usize) {
+        let node_size = mem::size_of::<EntryNode<K, V>>();
+        let mut found = 0;
+        if !is_live(self.head as usize, node_size) || !is_live(self.tail as usize, node_size) {
+            return (self.map.len(), found);
+        }
+        unsafe {
+            let mut cur = (*self.head).next;
+            let mut steps = 0;
+            while cur != self.tail && !cur.is_null() && cur != self.head && steps < max_steps {
+                if !is_live(cur as usize, node_size) {
+                    break;
+                }
+                let k = KeyRef {
+                    k: (*cur).key.as_ptr(),
+                };
+                if let Some(n) = self.map.get(&k) {
+                    if n.as_ptr() == cur {
+                        found += 1;
+                    }
+                }
+                cur = (*cur).next;
+                steps += 1;
+            }
+        }
+        (self.map.len(), found)
+    }
 }
 
 #[cfg(test)]
